@@ -332,7 +332,7 @@ func resolvePathWithRef(ref string, rootPath *url.URL) (*url.URL, error) {
 	}
 
 	resolvedPath := resolvePath(rootPath, parsedURL)
-	resolvedPath.Fragment = parsedURL.Fragment
+	resolvedPath.Fragment, resolvedPath.RawFragment = parsedURL.Fragment, parsedURL.RawFragment
 	return resolvedPath, nil
 }
 
@@ -590,6 +590,10 @@ func drillIntoField(cursor any, fieldName string) (any, error) {
 		if err != nil {
 			return nil, err
 		}
+		if len(fieldName) > 1 && fieldName[0] == '0' {
+			// RFC 6901: an array index has no leading zeros
+			return nil, fmt.Errorf("invalid array index %q", fieldName)
+		}
 		index := int(i)
 		if 0 > index || index >= val.Len() {
 			return nil, errors.New("slice index out of bounds")
@@ -653,7 +657,12 @@ func (loader *Loader) resolveRef(ref string, path *url.URL) (string, *url.URL, e
 	}
 
 	fragment := "#" + resolvedPathRef.Fragment
-	resolvedPathRef.Fragment = ""
+	if ref == "" || ref[0] != '#' {
+		// the fragment of an external reference has been percent-decoded by now and the text returned
+		// here is parsed once more: hand it on encoded, so that it is decoded once, like an internal one
+		fragment = "#" + resolvedPathRef.EscapedFragment()
+	}
+	resolvedPathRef.Fragment, resolvedPathRef.RawFragment = "", ""
 	return fragment, resolvedPathRef, nil
 }
 
